@@ -805,3 +805,6 @@ def _judge_rows(obs, body, sep, exp, dup, h, what):
     obs.check(_rows_close(got, exp), "csv-rows-differ:" + what,
               "%s(histogram(%r, %r), duplicate_last_bin=%r) parses back to %r, expected %r"
               % (what, h.edges, h.bins, dup, got, exp))
+
+
+RULE += (' A third of the graphs use one list object for two fields; one ToCSV element runs over six histograms whose contexts carry differing duplicate_last_bin options.')
